@@ -434,9 +434,11 @@ class Functor(pg_object.Object, utils.Functor):
 
     # Convert positional arguments to keyword arguments so we can map them back
     # later.
+    positional_arg_names = set()
     for i in range(len(args)):
       arg_spec = signature.args[i]
       arg_name = arg_spec.name
+      positional_arg_names.add(arg_name)
       if arg_name in self._specified_args:
         if not override_args:
           raise TypeError(
@@ -451,6 +453,10 @@ class Functor(pg_object.Object, utils.Functor):
       keyword_args[arg_name] = arg_value
 
     for arg_name, arg_value in kwargs.items():
+      if arg_name in positional_arg_names:
+        raise TypeError(
+            f'{signature.id}() got multiple values for argument {arg_name!r}.'
+        )
       if arg_name in self._specified_args:
         if not override_args:
           raise TypeError(
